@@ -256,6 +256,11 @@ def main(argv):
         tail = '' if o.get('replay_kind') else ' no-failing-input-found'
         lines.append('VIOLATION property=%s replay=%s obligation=%s%s' % (a.prop, rp, o['name'], tail))
     obligations = [o for o in obligations if o['status'] != 'waived']
+    # obligations refuted by a recorded known finding are reported separately: they are neither discharged nor part of
+    # what this run claims to have proved
+    known_found = [o for o in obligations if o.get('known_finding')]
+    obligations = [o for o in obligations if not o.get('known_finding')]
+    refuted = [o for o in refuted if not o.get('known_finding')]
     backend_count = {'verus': len([o for o in obligations if o['backend'] == 'verus']),
                      'kani_complete': len([o for o in obligations if o['backend'] == 'kani' and not o.get('bounded')]),
                      'kani_bounded': len([o for o in obligations if o['backend'] == 'kani' and o.get('bounded')])}
@@ -279,6 +284,7 @@ def main(argv):
             'rewrite_rules': {k: v for k, v in rw.DESCRIPTIONS.items() if any(r.startswith(k + ' ') for r in rewrites)},
             'not_covered': pc.get('not_covered', []),
             'waived': [{'obligation': o['name'], 'why': 'other traversal complete'} for o in waived],
+            'known_findings': [{'obligation': o['name'], 'clause': o['clause']} for o in known_found],
             'samples': [{'obligation': o['name'], 'backend': o['backend'], 'status': o['status'], 'clause': o['clause']} for o in obligations[:400]],
             'explanation': pc.get('explanation', ''),
         },
